@@ -502,11 +502,17 @@ func parseSearchQuery(query, countryCode string, withLogin bool) ([][]string, []
 	ctx := context{preOp: AND}
 	var out []token
 	var prev int
+	// The previous lexem was a closing quote.
+	var closed bool
 	query = strings.TrimSpace(query)
 	// Split query into tokens.
 	for i, w, pos := 0, 0, 0; prev != END; i, pos = i+w, pos+1 {
 		//
 		var emit bool
+		// The current lexem opens a quoted string.
+		var opened bool
+		afterQuote := closed
+		closed = false
 
 		// Lexer: get next rune.
 		var r rune
@@ -529,6 +535,7 @@ func parseSearchQuery(query, countryCode string, withLogin bool) ([][]string, []
 			if ctx.quo {
 				// End of the quoted string. Close the quote.
 				ctx.quo = false
+				closed = true
 			} else {
 				if prev == ORD {
 					// Reject strings like a"b
@@ -536,9 +543,12 @@ func parseSearchQuery(query, countryCode string, withLogin bool) ([][]string, []
 				}
 				// Start of the quoted string. Open the quote.
 				ctx.quo = true
-				ctx.unquote = true
+				opened = true
 			}
 			curr = ORD
+		} else if curr == ORD && afterQuote {
+			// Reject strings like "a"b
+			return nil, nil, fmt.Errorf("missing operator at or near %d", pos)
 		}
 
 		// Parser: process the current lexem in context.
@@ -578,7 +588,7 @@ func parseSearchQuery(query, countryCode string, withLogin bool) ([][]string, []
 		}
 
 		if emit {
-			if ctx.quo {
+			if ctx.quo && !opened {
 				return nil, nil, fmt.Errorf("unterminated quoted string at or near %d", pos)
 			}
 
@@ -609,6 +619,11 @@ func parseSearchQuery(query, countryCode string, withLogin bool) ([][]string, []
 			ctx.preOp = ctx.postOp
 			ctx.postOp = NONE
 			ctx.unquote = false
+		}
+
+		if opened {
+			// The quotes belong to the token which starts here, not to the one just emitted.
+			ctx.unquote = true
 		}
 
 		prev = curr
